@@ -51,6 +51,7 @@ Proof.
   - intros Hl H0. rewrite Htot in H0. destruct (J9 s I Hl H0) as (h & Hm). exists h. rewrite HT.
     destruct (Nat.eqb_spec h t) as [->|]; cbn [mustfree x']; exact Hm.
   - apply J10_upd; auto. intros (c0 & Hc0). destruct (J10 s I c0 t Hc0) as (_ & _ & Hr' & _ & He' & _). auto.
+  - apply J11_upd; auto.
 Qed.
 
 (* ---------- AReadM: the freeing thread reads the header after its fence ---------- *)
@@ -100,4 +101,5 @@ Proof.
     apply (J8 s I u).
   - intros _ _. exists t. rewrite HT, Nat.eqb_refl. reflexivity.
   - apply J10_upd; auto. intros (c0 & Hc0). exfalso. exact (borrower_no_mustfree s c0 t t I Hc0 Hmf).
+  - apply J11_upd; auto.
 Qed.
